@@ -23,6 +23,20 @@ theorem match_sound (r : Req) (h : Host) (s : Int) (hm : reqMatch r h = some s) 
   · simp [cpuLt] at k3; omega
   · simp [cpuLt] at k3; omega
 
+/-- **a conjunction requests what each of its terms requests**: if `a & b` (value `a.add b`, the shape of
+    `_add` is checked against the source by the translator) matches a host, the host offers at least the
+    GPUs of both together, the CPU memory and cores of each, and allows the duration of each. -/
+theorem conjunction_requires_both (a b : Req) (h : Host) (s : Int) (hm : reqMatch (a.add b) h = some s) :
+    a.gpus.length + b.gpus.length ≤ h.cuda.length ∧
+    a.cpu.memory ≤ h.cpu.memory ∧ b.cpu.memory ≤ h.cpu.memory ∧
+    a.cpu.cores ≤ h.cpu.cores ∧ b.cpu.cores ≤ h.cpu.cores ∧
+    (0 < h.maxDuration → a.duration ≤ h.maxDuration ∧ b.duration ≤ h.maxDuration) := by
+  obtain ⟨h1, _, h3, h4, h5⟩ := match_sound (a.add b) h s hm
+  simp only [Req.add, sortGpus_length, List.length_append] at h1 h3 h4 h5
+  refine ⟨h1, by omega, by omega, by omega, by omega, fun hp => ?_⟩
+  have := h5 hp
+  omega
+
 /-- non-vacuity: a concrete request matches a concrete host. -/
 example : reqMatch { gpus := [{ memory := 4 }, { memory := 8 }], cpu := { memory := 10, cores := 2 }, duration := 5 }
     { cuda := [{ memory := 8 }, { memory := 8 }, { memory := 2 }], cpu := { memory := 16, cores := 4 },
